@@ -1,6 +1,6 @@
 (* Props/C13.v — loading cache: one load in flight per key, result shared, failures not cached *)
 From Coq Require Import ZArith List Bool.
-From Verif Require Import Base.Word64 Model.Store Model.Flight Proof.FlightP Model.FlightFine Proof.FlightFineP Gen.Consts.
+From Verif Require Import Base.Word64 Model.Store Model.Flight Proof.FlightP Model.FlightFine Proof.FlightFineP Proof.FlightForgetP Gen.Consts.
 Import ListNotations.
 Open Scope Z_scope.
 
@@ -76,3 +76,29 @@ Theorem c13_release_before_copy_refuted :
   got_own_result (fold_left (g_act true) sched fine0) 2 = true.
 Proof. exact release_first_refuted. Qed.
 Print Assumptions c13_release_before_copy_refuted.
+
+(* "every caller that missed on that key WHILE IT RUNS receives that invocation's value" - and nobody else.  The leader's
+   function (LoadingStore.Get, GetWithSecodary) forgets its singleflight key before it releases the shard lock; so under
+   every schedule of callers entering, functions ending, leaders cleaning up and joiners waking, a caller who is told
+   "shared" has joined a call whose loader is running at that very moment: never one that has already stored its value
+   (which may since have been deleted - the stale answer of defect F17) *)
+Theorem c13_join_only_while_loading : forall sched p k reuse,
+  let f := fold_left (gstep true) sched newFlight in
+  snd (f_enter f p k reuse) = [0] ->
+  exists c, tab_get f k = Some c /\ In (k, c) (floaders f).
+Proof. exact join_only_while_loading. Qed.
+Print Assumptions c13_join_only_while_loading.
+
+(* the shape that theorem is about is the shape of store.go in this run (both functions) *)
+Theorem c13_forget_in_source : c_flight_forget_in_loader = (true, true).
+Proof. exact forget_shape_as_written. Qed.
+Print Assumptions c13_forget_in_source.
+
+(* without the Forget the statement is false: process 2 enters after the load of key 7 has ended and is handed its result *)
+Theorem c13_late_joiner_refuted :
+  let sched := [GEnterA 1 7 0; GEndA 1 0 111] in
+  let f := fold_left (gstep false) sched newFlight in
+  snd (f_enter f 2 7 0) = [0] /\ floaders f = [] /\
+  snd (f_wake (fst (f_finish (fst (f_enter f 2 7 0)) 1)) 2) = [0; 111].
+Proof. exact late_joiner_refuted. Qed.
+Print Assumptions c13_late_joiner_refuted.
